@@ -1284,6 +1284,16 @@ def gen_unique():
         lines = UniqueTr(names).block(_nodoc(m.body), '  ')
         out += ['/-- `Unique.%s` -/' % name,
                 'def unique_%s (seen items : List Name) %s : Except (Err × UState) UState :=' % (name, params)] + lines + ['']
+    # __init__: `self._seen = seen = set(); add = seen.add; self._items = [item for item in iterable if item not in seen and not add(item)]`
+    init = [ast.unparse(x) for x in _nodoc(_method(tree, 'Unique', '__init__').body)]
+    if init != ['self._seen = seen = set()', 'add = seen.add',
+                'self._items = [item for item in iterable if item not in seen and (not add(item))]']:
+        raise Decline('Unique.__init__ changed: %r' % init)
+    out += ['/-- `Unique(iterable)`: the comprehension whose filter adds to `seen` as a side effect, item by item -/',
+            'def unique_init (iterable : List Name) : UState :=',
+            '  let r := iterable.foldl (fun (s : List Name × List Name) item =>',
+            '    if !(s.1.contains item) then (sAdd s.1 item, s.2 ++ [item]) else s) ([], [])',
+            '  ⟨r.1, r.2⟩', '']
     # membership and iteration read the two fields as the model assumes
     for meth, want in (('__contains__', ['return item in self._seen']), ('__iter__', ['return iter(self._items)']),
                        ('__len__', ['return len(self._items)'])):
